@@ -13,17 +13,24 @@ Sub(n) == SubSeq(BaseTracks, 1, n)
 Ext(id, tag, o0, o1) == T(id, tag, "p", o0, o1)
 Scenarios ==
   CASE Family = "owned2" ->      \* two owned candidates, the F8 pattern
-         {[tracks |-> Sub(3), cands |-> <<Sub(3)[1], Sub(3)[2]>>, owned |-> TRUE, cls |-> 0, baked |-> b, limit |-> 10] : b \in BOOLEAN}
+         {[tracks |-> Sub(3), cands |-> <<Sub(3)[1], Sub(3)[2]>>, owned |-> TRUE, cls |-> 0, baked |-> b, limit |-> 10, post |-> "all"] : b \in BOOLEAN}
     [] Family = "small" ->
-         {[tracks |-> Sub(n), cands |-> cs, owned |-> TRUE, cls |-> cl, baked |-> b, limit |-> lim] :
-            n \in 2..4, cs \in {<<BaseTracks[1]>>, <<BaseTracks[1], BaseTracks[2]>>, <<BaseTracks[2], BaseTracks[1]>>},
-            cl \in Classes, b \in BOOLEAN, lim \in {1, 10}}
+         LET OwnedC == {<<BaseTracks[1]>>, <<BaseTracks[1], BaseTracks[2]>>, <<BaseTracks[2], BaseTracks[1]>>}
+             ExtC   == {<<Ext(9, 0, <<2>>, <<>>)>>, <<Ext(9, 1, <<4>>, <<3>>), Ext(8, 0, <<>>, <<1>>)>>}
+         IN
+         {[tracks |-> Sub(n), cands |-> cs, owned |-> TRUE, cls |-> cl, baked |-> b, limit |-> lim, post |-> "all"] :
+            n \in 2..4, cs \in OwnedC, cl \in Classes, b \in BOOLEAN, lim \in {1, 10}}
          \cup
-         {[tracks |-> Sub(n), cands |-> cs, owned |-> FALSE, cls |-> cl, baked |-> b, limit |-> lim] :
-            n \in 2..4, cs \in {<<Ext(9, 0, <<2>>, <<>>)>>, <<Ext(9, 1, <<4>>, <<3>>), Ext(8, 0, <<>>, <<1>>)>>},
-            cl \in Classes, b \in BOOLEAN, lim \in {1, 10}}
+         {[tracks |-> Sub(n), cands |-> cs, owned |-> FALSE, cls |-> cl, baked |-> b, limit |-> lim, post |-> "all"] :
+            n \in 2..4, cs \in ExtC, cl \in Classes, b \in BOOLEAN, lim \in {1, 10}}
+         \cup      \* pair-wise post-processing that keeps a pair's best distance only (class 0 has tracks with two observations)
+         {[tracks |-> Sub(n), cands |-> cs, owned |-> ow, cls |-> 0, baked |-> b, limit |-> 10, post |-> "best"] :
+            n \in 3..4, ow \in {TRUE}, cs \in {<<BaseTracks[1], BaseTracks[2]>>}, b \in BOOLEAN}
+         \cup
+         {[tracks |-> Sub(n), cands |-> cs, owned |-> FALSE, cls |-> 0, baked |-> b, limit |-> 10, post |-> "best"] :
+            n \in 3..4, cs \in {<<Ext(9, 0, <<2, 6>>, <<>>)>>, <<Ext(9, 0, <<2>>, <<>>), Ext(8, 0, <<4, 1>>, <<1>>)>>}, b \in BOOLEAN}
     [] Family = "wide" ->
-         {[tracks |-> BaseTracks, cands |-> cs, owned |-> TRUE, cls |-> 0, baked |-> FALSE, limit |-> 10] :
+         {[tracks |-> BaseTracks, cands |-> cs, owned |-> TRUE, cls |-> 0, baked |-> FALSE, limit |-> 10, post |-> "all"] :
             cs \in {<<BaseTracks[1], BaseTracks[2], BaseTracks[3]>>, <<BaseTracks[4], BaseTracks[2], BaseTracks[1]>>}}
 MCInit == \E s \in Scenarios : InitWith(s) /\ sched = <<>>
 Tok(a) == IF History THEN Append(sched, a) ELSE sched
